@@ -188,7 +188,7 @@ fn fixpoint(g1: &rssl::CompiledPipeline, label: &str, nontrivial: bool, key: u64
             let line = e.lines().nth(1).unwrap_or("");
             // (the constant-expression diagnostic carries no location: any line of that shape explains it)
             let unlocated_shape = msg.contains("could not be evaluated as a constant expression") && !e.contains("main.rssl:") && t1.lines().any(template_call_shape);
-            if unlocated_shape || template_call_shape(line) && (msg.contains("non-function") || msg.contains("constant expression") || msg.contains("failed to parse") || msg.contains("not declared")) {
+            if unlocated_shape || template_call_shape(line) && (msg.contains("non-function") || msg.contains("constant expression") || msg.contains("failed to parse") || msg.contains("not declared") || msg.contains("aggregate initializer has incorrect number of elements")) {
                 return Verdict::fail("emitted-text-rejected:template-call-ambiguity", format!("{}\n--- emitted text\n{}", e, t1));
             }
             return Verdict::fail(format!("emitted-text-rejected:{}", normalise_panic(msg)), format!("{}\n--- emitted text\n{}", e, t1));
@@ -244,7 +244,7 @@ pub fn check_record(rec: &Value) -> Verdict {
 }
 
 pub fn run(ctx: &mut Ctx) {
-    ctx.rule = "g1 = compile(P, DirectX, no-pipeline); g2 = compile(text(g1)) must succeed, g2.data == g1.data byte for byte and every binding keeps its group/slot/type/count. P ranges over the generated programs of harness/src/progen.rs (structs, enums, templates, overloads, statics, arrays, every statement and operator form; resource declarations of every object kind with register/space annotations in the resource profile) and over the third-party corpus entry points under /repo/tests (read from disk with the include resolution of tests/external.rs). Non-trivial = emitted text >= 400 bytes with calls and non-integer literals, or any corpus entry. Distinct = hash of the source.".into();
+    ctx.rule = "g1 = compile(P, DirectX, no-pipeline); g2 = compile(text(g1)) must succeed, g2.data == g1.data byte for byte and every binding keeps its group/slot/type/count. P ranges over the generated programs of harness/src/progen.rs (structs, enums, templates, overloads, statics, arrays, every statement and operator form; resource declarations of every object kind with register/space annotations in the resource profile) over the same programs with identifiers renamed onto reserved words, builtin function names and name_N forms (the renamings of C15), and over the third-party corpus entry points under /repo/tests (read from disk with the include resolution of tests/external.rs). Non-trivial = emitted text >= 400 bytes with calls and non-integer literals, or any corpus entry. Distinct = hash of the source.".into();
     ctx.assumptions.push("programs the front end rejects are skipped and counted (the generator's acceptance rate is reported)".into());
     if !ctx.replay_tier(&check_record) {
         return;
@@ -268,6 +268,18 @@ pub fn run(ctx: &mut Ctx) {
         |ch: &Vec<u32>| {
             let (_p, text, _) = progen::generate(ch, progen::Profile::exec_hlsl());
             json!({"kind": "text", "source": text})
+        },
+        check_record,
+    );
+    // programs whose identifiers were renamed onto reserved words, builtin names and name_N forms: the exporter's own
+    // renaming has to keep the emitted text acceptable and stable
+    ctx.run_prop(
+        "renamed_programs",
+        ctx.tier.pick(3_000, 60_000),
+        || (progen::choices_strategy(500), 1u8..5, proptest::prelude::any::<u64>()),
+        |(ch, class, seed): &(Vec<u32>, u8, u64)| {
+            let r = crate::c15::make_case_with(ch, if *class == 3 { 4 } else { *class }, 0, *seed, true);
+            json!({"kind": "text", "source": r["renamed"]})
         },
         check_record,
     );
